@@ -414,6 +414,8 @@ pub enum Source {
     Shuffled,
     Recombined,
     Random,
+    /// silence / pause labels only (boundary class: no GV-eligible frame, nothing voiced)
+    Silence,
 }
 
 impl Source {
@@ -423,6 +425,7 @@ impl Source {
             Source::Shuffled => "shuffled",
             Source::Recombined => "recombined",
             Source::Random => "random",
+            Source::Silence => "silence-only",
         }
     }
 }
@@ -430,11 +433,12 @@ impl Source {
 /// `n` label lines from a generated source. `allow_random` adds the structurally random source.
 pub fn gen_label_lines(t: &mut Tape, n: usize, allow_random: bool) -> (Vec<String>, Source) {
     let c = corpus();
-    let src = match t.weighted(&[4, 2, 3, if allow_random { 2 } else { 0 }]) {
+    let src = match t.weighted(&[8, 4, 6, if allow_random { 4 } else { 0 }, 1]) {
         0 => Source::Consecutive,
         1 => Source::Shuffled,
         2 => Source::Recombined,
-        _ => Source::Random,
+        3 => Source::Random,
+        _ => Source::Silence,
     };
     let lines = match src {
         Source::Consecutive => {
@@ -445,6 +449,13 @@ pub fn gen_label_lines(t: &mut Tape, n: usize, allow_random: bool) -> (Vec<Strin
         Source::Shuffled => (0..n).map(|_| t.pick(&c.lines).clone()).collect(),
         Source::Recombined => (0..n).map(|_| recombined_label(t).to_string()).collect(),
         Source::Random => (0..n).map(|_| random_label(t).to_string()).collect(),
+        Source::Silence => {
+            static SIL: OnceLock<Vec<String>> = OnceLock::new();
+            let sil = SIL.get_or_init(|| {
+                c.lines.iter().filter(|l| l.contains("-sil+") || l.contains("-pau+")).cloned().collect()
+            });
+            (0..n.min(6)).map(|_| t.pick(sil).clone()).collect()
+        }
     };
     (lines, src)
 }
